@@ -84,7 +84,8 @@ def handle : List String → String
       | "gc" =>
         -- prefactor column: exp(log_prefactor) (0 for -inf); log A = exponential + log_prefactor
         let e := gcExpo p.k p.c p.t
-        let lp : Float := match gcLogPref p.k p.c with | some x => x | none => Float.log 0.0
+        let lp : Float := if ¬ (0.0 : Float) < p.c.exchangeMass then Float.log 0.0
+          else match gcLogPref p.k p.c with | some x => x | none => Float.log 0.0
         s!"ok {Proto.bitsOfFloat e} {Proto.bitsOfFloat (Float.exp lp)} {Proto.bitsOfFloat (e + lp)} {bits (p.us.map (gcEvaluate p.k p.c p.t))}"
       | _ => "bad-op"
   | "crit-raw" :: kind :: rest =>
